@@ -14,12 +14,14 @@ const StringFalse = "false"
 const StringNull = "null"
 const StringAny = "any"
 const StringEnum = "enum"
+const StringMixed = "mixed"
 const StringArray = "array"
 const StringString = "string"
 const StringInteger = "integer"
 const StringBoolean = "boolean"
 const StringDate = "date"
 const StringFloat = "float"
+const StringDecimal = "decimal"
 const StringObject = "object"
 const StringNumber = "number"
 const StringDatetime = "datetime"
